@@ -10,6 +10,10 @@ from beartype.roar import BeartypeCallHintViolation
 OPT = not __debug__
 
 
+class Meta(type):
+    """a user metaclass: classes of this metaclass are classes like any other for the decorator"""
+
+
 class Foreign:
     def fm(self, x: int):
         return x
@@ -136,7 +140,7 @@ def observe(cls, c, before, prefix=''):
     for name, m in c['members']:
         a = cls.__dict__.get(name)
         b_attr, b_funcs = before[prefix + name] if prefix + name in before else (None, [])
-        o = {'kind': type(a).__name__, 'same_object': a is b_attr}
+        o = {'kind': 'type' if isinstance(a, type) else type(a).__name__, 'same_object': a is b_attr}
         fs = funcs_of(a)
         # identity at the level the property speaks about: the callables inside the descriptor
         o['funcs_same'] = [f is g for f, g in zip(fs, b_funcs)]
@@ -177,7 +181,8 @@ def run(case):
         BeartypeConf(warning_cls_on_decorator_exception=UserWarning) if case.get('warn_decor') else BeartypeConf()
     src = '\n'.join(gen_source(case['base']) + gen_source(case['cls'])) if case.get('base') else '\n'.join(gen_source(case['cls']))
     from typing import no_type_check
-    envA = {'beartype': beartype, 'no_type_check': no_type_check, 'Foreign': Foreign}
+    import abc
+    envA = {'beartype': beartype, 'no_type_check': no_type_check, 'Foreign': Foreign, 'abc': abc, 'Meta': Meta}
     envB = dict(envA)
     exec(src, envA)
     exec(src, envB)
